@@ -73,6 +73,12 @@ func (f *front) ServeHTTP(rw http.ResponseWriter, req *http.Request) {
 	if strings.HasPrefix(req.Header.Get("Content-Type"), "application/x-www-form-urlencoded") {
 		ex.Form, _ = url.ParseQuery(string(body))
 	}
+	if h := f.w.dropHook; h != nil && h(ex) {
+		ex.Status = 502
+		f.w.record(ex)
+		http.Error(rw, "dropped", 502)
+		return
+	}
 	out, err := http.NewRequest(req.Method, f.target+req.URL.RequestURI(), bytes.NewReader(body))
 	if err != nil {
 		http.Error(rw, err.Error(), 502)
@@ -106,6 +112,7 @@ type nodeRec struct {
 	system   *core.System
 	vs       *vstore
 	dids     map[string]string // subject -> did
+	kids     map[string]string // subject -> key id of its assertion method
 }
 
 func (n *nodeRec) base(subject string) string { return n.front.url + "/oauth2/" + subject }
@@ -117,6 +124,8 @@ type world struct {
 	log  []*exchange
 	http *http.Client
 	evil *evilServer
+	// dropHook: the attacker on the wire captures a request and does not let it through (answer 502)
+	dropHook func(ex *exchange) bool
 }
 
 func (w *world) record(ex *exchange) {
@@ -189,7 +198,7 @@ var clientTenants = []string{"ta", "tb", "tx"} // tx: the tenant the attacker co
 var verifierTenants = []string{"v1", "v2"}
 
 func startNode(t *testing.T, w *world, name string, pdir string) *nodeRec {
-	n := &nodeRec{name: name, dids: map[string]string{}}
+	n := &nodeRec{name: name, dids: map[string]string{}, kids: map[string]string{}}
 	n.front = newFront(w, name)
 	n.internal, n.public, n.system = node.StartServer(t, func(_, public string) {
 		n.front.target = public
@@ -226,11 +235,11 @@ func newWorld(t *testing.T) *world {
 	w.A = startNode(t, w, "A", pdir)
 	w.B = startNode(t, w, "B", pdir)
 	for _, s := range clientTenants {
-		w.A.dids[s] = w.createSubject(w.A, s)
+		w.A.dids[s], w.A.kids[s] = w.createSubject(w.A, s)
 		w.issueOrgCredential(w.A, s, "ORG-"+s, "CITY-"+s)
 	}
 	for _, s := range verifierTenants {
-		w.B.dids[s] = w.createSubject(w.B, s)
+		w.B.dids[s], w.B.kids[s] = w.createSubject(w.B, s)
 	}
 	return w
 }
@@ -246,20 +255,30 @@ func (w *world) postJSON(u string, body interface{}) (int, []byte) {
 	return resp.StatusCode, out
 }
 
-func (w *world) createSubject(n *nodeRec, subject string) string {
+func (w *world) createSubject(n *nodeRec, subject string) (string, string) {
 	st, raw := w.postJSON(n.internal+"/internal/vdr/v2/subject", map[string]string{"subject": subject})
 	if st != 200 {
 		w.t.Fatalf("create subject %s: %d %s", subject, st, raw)
 	}
 	var out struct {
 		Documents []struct {
-			ID string `json:"id"`
+			ID              string        `json:"id"`
+			AssertionMethod []interface{} `json:"assertionMethod"`
 		} `json:"documents"`
 	}
 	if err := json.Unmarshal(raw, &out); err != nil || len(out.Documents) == 0 {
 		w.t.Fatalf("create subject %s: %v %s", subject, err, raw)
 	}
-	return out.Documents[0].ID
+	kid := ""
+	if len(out.Documents[0].AssertionMethod) > 0 {
+		switch v := out.Documents[0].AssertionMethod[0].(type) {
+		case string:
+			kid = v
+		case map[string]interface{}:
+			kid, _ = v["id"].(string)
+		}
+	}
+	return out.Documents[0].ID, kid
 }
 
 func (w *world) issueOrgCredential(n *nodeRec, subject, name, city string) {
